@@ -196,3 +196,104 @@ Proof.
   destruct (Hi v s eq_refl) as [Hc He]. unfold cio_finalize.
   destruct (Nat.ltb_spec (cio_end s) (cio_cursor s)); [lia|]. exact I.
 Qed.
+
+(* ---------------- writer: however it accepts data in pieces ---------------- *)
+From PV Require Import Ser SerFlavors SerFacts.
+Lemma write_loop_nil fuel w : write_all_loop fuel w [] = Ok w.
+Proof. destruct fuel; reflexivity. Qed.
+Lemma write_loop_gentle : forall fuel w bs, wgentle (cw_sched w) = true -> (length bs + length (cw_sched w) + 1 <= fuel)%nat ->
+  exists s', wgentle s' = true /\
+    write_all_loop fuel w bs = Ok {| cw_accepted := cw_accepted w ++ bs; cw_sched := s'; cw_flush_fails := cw_flush_fails w |}.
+Proof.
+  induction fuel as [|f IH]; intros w bs Hg Hf; [lia|].
+  destruct bs as [|b bs].
+  { exists (cw_sched w). split; [exact Hg|]. cbn [write_all_loop]. rewrite app_nil_r. destruct w; reflexivity. }
+  cbn [write_all_loop]. destruct (cw_sched w) as [|[k| | |] s] eqn:Es; try discriminate Hg.
+  - exists []. split; reflexivity.
+  - cbn [wgentle forallb] in Hg. set (n := Nat.min (S k) (length (b :: bs))).
+    specialize (IH {| cw_accepted := cw_accepted w ++ firstn n (b :: bs); cw_sched := s; cw_flush_fails := cw_flush_fails w |} (skipn n (b :: bs)) Hg).
+    cbn [cw_sched cw_accepted cw_flush_fails] in IH. rewrite skipn_length in IH.
+    assert (Hn : (1 <= n <= length (b :: bs))%nat) by (subst n; cbn [length]; lia).
+    specialize (IH ltac:(cbn [length] in *; lia)). destruct IH as (s' & Hs' & E). exists s'. split; [exact Hs'|].
+    rewrite E. rewrite <- app_assoc, firstn_skipn. reflexivity.
+  - cbn [wgentle forallb] in Hg.
+    specialize (IH {| cw_accepted := cw_accepted w; cw_sched := s; cw_flush_fails := cw_flush_fails w |} (b :: bs) Hg).
+    cbn [cw_sched cw_accepted cw_flush_fails] in IH. apply IH. cbn [length] in *. lia.
+Qed.
+Lemma write_loop_total : forall fuel w bs, (length bs + length (cw_sched w) + 1 <= fuel)%nat ->
+  match write_all_loop fuel w bs with
+  | Ok w' => exists p, cw_accepted w' = cw_accepted w ++ p   (* only ever appended to *)
+  | Err e => e = SerializeBufferFull
+  | _ => False
+  end.
+Proof.
+  induction fuel as [|f IH]; intros w bs Hf; [lia|].
+  destruct bs as [|b bs]; [cbn [write_all_loop]; exists []; rewrite app_nil_r; reflexivity|].
+  cbn [write_all_loop]. destruct (cw_sched w) as [|[k| | |] s] eqn:Es; try reflexivity.
+  - exists (b :: bs). reflexivity.
+  - set (n := Nat.min (S k) (length (b :: bs))).
+    specialize (IH {| cw_accepted := cw_accepted w ++ firstn n (b :: bs); cw_sched := s; cw_flush_fails := cw_flush_fails w |} (skipn n (b :: bs))).
+    cbn [cw_sched cw_accepted] in IH. rewrite skipn_length in IH.
+    assert (Hn : (1 <= n <= length (b :: bs))%nat) by (subst n; cbn [length]; lia).
+    specialize (IH ltac:(cbn [length] in *; lia)).
+    destruct (write_all_loop f _ _) as [w'|e| | |]; try exact IH. destruct IH as [p Hp]. exists (firstn n (b :: bs) ++ p). rewrite Hp, app_assoc. reflexivity.
+  - specialize (IH {| cw_accepted := cw_accepted w; cw_sched := s; cw_flush_fails := cw_flush_fails w |} (b :: bs)).
+    cbn [cw_sched cw_accepted] in IH. apply IH. cbn [length] in *. lia.
+Qed.
+
+Lemma cwriter_run_ops ops : forall w, wgentle (cw_sched w) = true ->
+  exists s', wgentle s' = true /\
+    run_ops cwriter_flavor w ops = Ok {| cw_accepted := cw_accepted w ++ flatten_ops ops; cw_sched := s'; cw_flush_fails := cw_flush_fails w |}.
+Proof.
+  induction ops as [|o ops IH]; intros w Hg; cbn [run_ops].
+  - exists (cw_sched w). split; [exact Hg|]. unfold flatten_ops. cbn. rewrite app_nil_r. destruct w; reflexivity.
+  - assert (Hop : exists s1, wgentle s1 = true /\
+              run_op cwriter_flavor w o = Ok {| cw_accepted := cw_accepted w ++ op_bytes o; cw_sched := s1; cw_flush_fails := cw_flush_fails w |}).
+    { destruct o; cbn [run_op cwriter_flavor sf_push sf_extend op_bytes]; unfold write_all_c;
+        match goal with |- context [write_all_loop ?fu w ?l] => destruct (write_loop_gentle fu w l Hg ltac:(lia)) as (s1 & Hs1 & E) end;
+        exists s1; (split; [exact Hs1|]); rewrite E; reflexivity. }
+    destruct Hop as (s1 & Hs1 & E). rewrite E. cbn [bind].
+    destruct (IH {| cw_accepted := cw_accepted w ++ op_bytes o; cw_sched := s1; cw_flush_fails := cw_flush_fails w |} Hs1) as (s' & Hs' & E2).
+    exists s'. split; [exact Hs'|]. rewrite E2. cbn [cw_accepted cw_flush_fails]. unfold flatten_ops. cbn [flat_map]. rewrite <- app_assoc. reflexivity.
+Qed.
+
+Theorem to_io_chunked_is_encode v sched : wgentle sched = true -> ser_err v = None -> to_io_c v sched false = Ok (enc v).
+Proof.
+  intros Hg H. unfold to_io_c, serialize_with, ser_err, enc in *. destruct (ser_ops v) as [ops e]. cbn [snd fst] in *. subst e.
+  destruct (cwriter_run_ops ops {| cw_accepted := []; cw_sched := sched; cw_flush_fails := false |} Hg) as (s' & _ & E).
+  rewrite E. reflexivity.
+Qed.
+
+Lemma cwriter_run_ops_total ops : forall w,
+  match run_ops cwriter_flavor w ops with
+  | Ok w' => cw_flush_fails w' = cw_flush_fails w
+  | Err e => e = SerializeBufferFull \/ e = CollectStrError
+  | _ => False
+  end.
+Proof.
+  induction ops as [|o ops IH]; intros w; cbn [run_ops]; [reflexivity|].
+  assert (Hop : match run_op cwriter_flavor w o with
+                | Ok w' => cw_flush_fails w' = cw_flush_fails w
+                | Err e => e = SerializeBufferFull \/ e = CollectStrError
+                | _ => False end).
+  { assert (Hff : forall fuel w0 bs w', write_all_loop fuel w0 bs = Ok w' -> cw_flush_fails w' = cw_flush_fails w0).
+    { induction fuel as [|f IHf]; intros w0 bs w' E; destruct bs as [|b bs]; cbn [write_all_loop] in E; try discriminate E;
+        try (injection E as <-; reflexivity).
+      destruct (cw_sched w0) as [|[k| | |] s]; try discriminate E.
+      - injection E as <-. reflexivity.
+      - apply IHf in E. exact E.
+      - apply IHf in E. exact E. }
+    destruct o; cbn [run_op cwriter_flavor sf_push sf_extend]; unfold write_all_c;
+      match goal with |- context [write_all_loop ?fu w ?l] =>
+        pose proof (write_loop_total fu w l ltac:(lia)) as T; pose proof (Hff fu w l) as F; destruct (write_all_loop fu w l) as [w'|e| | |] end;
+      cbn [map_err]; try contradiction; try (apply F; reflexivity); auto. }
+  destruct (run_op cwriter_flavor w o) as [w1|e| | |]; try contradiction; cbn [bind]; [|exact Hop].
+  specialize (IH w1). destruct (run_ops cwriter_flavor w1 ops) as [w2|e| | |]; try contradiction; [congruence|exact IH].
+Qed.
+Theorem to_io_chunked_total v sched ff : benign (to_io_c v sched ff).
+Proof.
+  unfold to_io_c, serialize_with. destruct (ser_ops v) as [ops e].
+  pose proof (cwriter_run_ops_total ops {| cw_accepted := []; cw_sched := sched; cw_flush_fails := ff |}) as H.
+  destruct (run_ops cwriter_flavor _ ops) as [w|e0| | |]; try contradiction; cbn [bind]; [|exact I].
+  destruct e; [exact I|]. cbn [cwriter_flavor sf_finalize]. destruct (cw_flush_fails w); exact I.
+Qed.
